@@ -103,6 +103,27 @@ func c04Contracts() *Scenario {
 		Ops:   []OpSpec{{Sess: "f", Kind: "insert", Nodes: []int{1}, Seed: 1}, {Sess: "f", Kind: "insert", Nodes: []int{2, 3}, Seed: 2}}}
 }
 
+// c04StopFlush: a pruning node whose shutdown flushes HEAD, HEAD-1 and HEAD-127.  130 linear blocks; block 1
+// creates a contract with 300 storage slots, every block moves value between the four accounts, so that
+// consecutive states share most of their (never flushed, dirty) nodes.
+func c04StopFlush() *Scenario {
+	sc := &Scenario{Name: "c04-stop-flush", Nodes: []NodeSpec{{}}}
+	var all []int
+	for i := 1; i <= 130; i++ {
+		ns := NodeSpec{Parent: i - 1, Diff: 100, Valid: true, Txs: []TxSpec{{Acct: i % 3, Variant: i % 2}}}
+		if i == 1 {
+			ns.Fan = 300
+		}
+		if i == 127 {
+			ns.Fan = 40
+		}
+		sc.Nodes = append(sc.Nodes, ns)
+		all = append(all, i)
+	}
+	sc.Ops = []OpSpec{{Sess: "f", Kind: "insert", Nodes: all[:60], Seed: 1}, {Sess: "f", Kind: "insert", Nodes: all[60:], Seed: 2}}
+	return sc
+}
+
 // c04Short: a short import with a shorter-but-heavier reorganisation, for the exhaustive failing-write sweep.
 func c04Short() *Scenario {
 	return &Scenario{Name: "c04-short",
@@ -644,10 +665,11 @@ func (r *c04Run) checkPrefix(L []Rec, opOf []int, p int, o prefixOpts) string {
 // ---------------------------------------------------------------- one scenario under one configuration
 
 type c04Plan struct {
-	convEvery    int // step 7 on every k-th prefix (0: never)
-	closureEvery int // step 6 over all blocks on every k-th prefix
-	prefixEvery  int // 1 = all prefixes
-	failEvery    int // failing write on every k-th index (0: none)
+	convEvery    int  // step 7 on every k-th prefix (0: never)
+	closureEvery int  // step 6 over all blocks on every k-th prefix
+	prefixEvery  int  // 1 = all prefixes
+	failEvery    int  // failing write on every k-th index (0: none)
+	stopOnly     bool // only the prefixes / failing writes inside Stop() (the shutdown flushes of a pruning node), plus the complete log
 }
 
 func c04Prepare(c *vh.Ctx, sc *Scenario, cfg string) *c04Run {
@@ -696,6 +718,9 @@ func c04RunScenario(c *vh.Ctx, sc *Scenario, cfg string, plan c04Plan, jobDir st
 	}
 	L, opOf := r.log.L, r.log.OpOf
 	for p := 0; p <= len(L); p++ {
+		if plan.stopOnly && p != len(L) && !(p > 0 && opOf[p-1] == len(sc.Ops)) {
+			continue
+		}
 		if plan.prefixEvery > 1 && p%plan.prefixEvery != 0 && p != len(L) && !(p > 0 && touchesHeadOrCanon(L[p-1])) {
 			continue
 		}
@@ -726,6 +751,9 @@ func c04RunScenario(c *vh.Ctx, sc *Scenario, cfg string, plan c04Plan, jobDir st
 	if plan.failEvery > 0 {
 		var idx []int
 		for n := 1; n <= len(L); n += plan.failEvery {
+			if plan.stopOnly && opOf[n-1] != len(sc.Ops) {
+				continue
+			}
 			idx = append(idx, n)
 		}
 		nfail = len(idx)
@@ -888,6 +916,9 @@ func (r *c04Run) failingWrites(idx []int, jobDir string) {
 			if f, err := os.Open(res.outFile); err == nil {
 				derr := gob.NewDecoder(f).Decode(&cl)
 				f.Close()
+				if derr == nil && res.out.TreeHash == treeHash && len(cl.L) < n-1 {
+					c.Fatal("failing write %d of %s/%s: the child logged only %d records before the failure point (it did not replay the history)", n, r.sc.Name, r.cfg, len(cl.L))
+				}
 				if derr == nil && res.out.TreeHash == treeHash && !sameRecs(cl.L, L[:n-1]) {
 					c.Count("failwrite-process-continued:" + r.cfg)
 					extra2 := map[string]interface{}{"fail_write": n, "failed_record": extra["failed_record"], "note": "prefix counts the records of the log the process wrote after the failed write was dropped"}
@@ -895,7 +926,7 @@ func (r *c04Run) failingWrites(idx []int, jobDir string) {
 					// ... and every crash point of that continued run: the process swallowed (or returned) the
 					// error and went on writing; dying at any later write boundary must still keep the guarantees
 					// (in particular: a block InsertChain reported as imported is the head after a restart)
-					if len(cl.L) <= 64 || c.Thorough() {
+					if len(cl.L)-n <= 64 || c.Thorough() {
 						for p := n; p < len(cl.L); p++ {
 							r.checkPrefix(cl.L, cl.OpOf, p, prefixOpts{label: fmt.Sprintf("w%d-after-p%d", n, p), closure: true, extra: extra2})
 						}
@@ -946,7 +977,7 @@ func c04Child(jobFile string) {
 	}
 	var t *Tree
 	if len(job.Blocks) == len(job.Scenario.Nodes)-1 {
-		t = &Tree{Spec: job.Scenario.Nodes, Gspec: NewGspec(), Engine: NewDiffEngine(), Blocks: make([]*types.Block, len(job.Scenario.Nodes))}
+		t = &Tree{Spec: job.Scenario.Nodes, Gspec: GspecFor(job.Scenario.Nodes), Engine: NewDiffEngine(), Blocks: make([]*types.Block, len(job.Scenario.Nodes))}
 		t.Config = t.Gspec.Config
 		for i, enc := range job.Blocks {
 			b := new(types.Block)
@@ -1103,6 +1134,12 @@ func MainC04() {
 		return
 	}
 
+	if os.Getenv("C04_ONLY") == "stop" {
+		c04RunScenario(c, c04StopFlush(), "pruning-1-5m", c04Plan{convEvery: 2, closureEvery: 1, prefixEvery: 1, failEvery: 1, stopOnly: true}, jobDir)
+		trieVerdict()
+		c.Finish()
+		return
+	}
 	if os.Getenv("C04_ONLY") == "big" {
 		c04RunScenario(c, c04BigState(), "archive", c04Plan{convEvery: 8, closureEvery: 1, prefixEvery: 1}, jobDir)
 		trieVerdict()
@@ -1118,6 +1155,9 @@ func MainC04() {
 	// (1b') contracts: code without storage, shared code, cleared storage; archive import, pruning Stop(), clean shutdown
 	c04RunScenario(c, c04Contracts(), "archive", c04Plan{convEvery: 3, closureEvery: 1, prefixEvery: 1}, jobDir)
 	c04RunScenario(c, c04Contracts(), "pruning-1-5m", c04Plan{convEvery: 3, closureEvery: 1, prefixEvery: 1}, jobDir)
+	// (1b'') every batch flush of a pruning node's Stop() (HEAD, HEAD-1, HEAD-127) made to fail, Stop carrying on as it does
+	// (it only logs commit errors); states share most of their dirty nodes; reopen what reached the disk
+	c04RunScenario(c, c04StopFlush(), "pruning-1-5m", c04Plan{convEvery: 2, closureEvery: 1, prefixEvery: 1, failEvery: 1, stopOnly: true}, jobDir)
 	// (1c) exhaustive failing-write sweep: every write of one short archive import and of one pruning import + Stop()
 	c04RunScenario(c, c04Short(), "archive", c04Plan{convEvery: 1, closureEvery: 1, prefixEvery: 1, failEvery: 1}, jobDir)
 	c04RunScenario(c, c04Short(), "pruning-1-5m", c04Plan{convEvery: 1, closureEvery: 1, prefixEvery: 1, failEvery: 1}, jobDir)
